@@ -1279,7 +1279,8 @@ class System:
         starting_bus = 0
         visit_idx = 0
 
-        while True:
+        # nothing to search if every bus is islanded (no in-service series device)
+        while self.Bus.n_islanded_buses < n:
             if starting_bus in self.Bus.islanded_buses:
                 starting_bus += 1
                 continue
